@@ -18,6 +18,11 @@ Section C06.
   Variable resume : K -> MS -> MS * list I * status (K:=K) (R:=R).
   Variable ret : K -> R -> K.
   Variable reg : MS -> nat -> option (list nat).    (* model_context_map, part of the machine state *)
+  (* context managers are user code: __enter__ of context x may refuse (raise) for call c, __exit__ may raise after
+     releasing; the theorems hold for EVERY such behaviour (all failure patterns) *)
+  Variable cfail xfail : call -> ctx -> bool.
+  Variable r_refused : call -> ctx -> R.
+  Variable r_exit : call -> ctx -> R -> R.
   Variable cfg : lcfg.
   Hypothesis WF : wf_cfg cfg = true.
   Variable ms0 : MS.
@@ -26,16 +31,16 @@ Section C06.
   (* reachable within the envelope: g = run sched (init progs ms0) for some schedule, and the ghost flag
      g_bad is down (no call entered with an empty context list - an event sent to an unregistered model of
      a LockedMachine - or with a context object configured twice) *)
-  Notation reach := (reachable start resume ret reg cfg ms0 progs).
-  Notation stp := (step start resume ret reg cfg).
+  Notation reach := (reachable start resume ret reg cfail xfail r_refused r_exit cfg ms0 progs).
+  Notation stp := (step start resume ret reg cfail xfail r_refused r_exit cfg).
 
   (* The protocol invariant holds in every such state: each thread's entered contexts are a prefix of the
      list it read when the call started (all of it while processing), nested activations hold nothing, a
      lock's owner / ident.current is exactly the thread that entered it. *)
   Theorem C06_invariant : forall sched,
-    g_bad (run start resume ret reg cfg sched (init progs ms0)) = false ->
-    Inv cfg (run start resume ret reg cfg sched (init progs ms0)).
-  Proof. exact (@c06_invariant MS K R I start resume ret reg cfg WF ms0 progs). Qed.
+    g_bad (run start resume ret reg cfail xfail r_refused r_exit cfg sched (init progs ms0)) = false ->
+    Inv cfg (run start resume ret reg cfail xfail r_refused r_exit cfg sched (init progs ms0)).
+  Proof. exact (@c06_invariant MS K R I start resume ret reg cfail xfail r_refused r_exit cfg WF ms0 progs). Qed.
 
   (* Mutual exclusion: at most one thread is between its first acquire and its last release; at most
      one thread executes segments (callbacks), it owns the first machine context and is ident.current. *)
@@ -43,7 +48,7 @@ Section C06.
     (held g t1 <> [] -> held g t2 <> [] -> t1 = t2) /\
     (in_segment g t1 -> in_segment g t2 -> t1 = t2) /\
     (in_segment g t1 -> g_own g (L0 cfg) = t1 /\ g_ident g = t1).
-  Proof. exact (@c06_mutex MS K R I start resume ret reg cfg WF ms0 progs). Qed.
+  Proof. exact (@c06_mutex MS K R I start resume ret reg cfail xfail r_refused r_exit cfg WF ms0 progs). Qed.
 
   (* Serial equivalence: the completed top-level calls, in the order in which they acquired the machine,
      form a serial execution from the initial machine state with the same per-call results and item
@@ -53,7 +58,7 @@ Section C06.
     exists msk,
       serial_exec start resume ret (dcalls (g_done g)) ms0 msk (dress (g_done g)) /\
       ((forall t, t <> 0 -> t_cur (g_th g t) = None) -> g_ms g = msk /\ g_acq g = dpairs (g_done g)).
-  Proof. exact (@serial_final MS K R I start resume ret reg cfg WF ms0 progs). Qed.
+  Proof. exact (@serial_final MS K R I start resume ret reg cfail xfail r_refused r_exit cfg WF ms0 progs). Qed.
 
   (* ... and while a call is being processed, the machine state is an intermediate state of the purely
      sequential execution of that call started after the serial execution of the completed ones. *)
@@ -64,14 +69,17 @@ Section C06.
       seq_iter start resume ret n (Running [start (a_call a)] msk []) =
         Running (kstack (t_nest (g_th g t)) k) (g_ms g) (t_items (g_th g t)) /\
       g_acq g = dpairs (g_done g) ++ [(t, a_call a)].
-  Proof. exact (@serial_mid MS K R I start resume ret reg cfg WF ms0 progs). Qed.
+  Proof. exact (@serial_mid MS K R I start resume ret reg cfail xfail r_refused r_exit cfg WF ms0 progs). Qed.
 
-  (* ... and these are "the same calls": per thread, program = completed calls (in program order) ++ the
-     call in progress ++ the calls not yet started; a finished thread has completed exactly its program. *)
+  (* ... and these are "the same calls": per thread, program = finished calls (in program order; g_fin marks
+     each as processed or as refused by a context's __enter__) ++ the call in progress ++ the calls not yet
+     started; a finished thread has finished exactly its program; the processed ones are exactly the calls of
+     the serial execution - a refused call is unwound and nothing of it is processed. *)
   Theorem C06_same_calls : forall g t, reach g -> t <> 0 ->
-    progs t = tcalls t (g_done g) ++ pend (g_th g t) ++ t_prog (g_th g t) /\
-    (thread_done (g_th g t) = true -> tcalls t (g_done g) = progs t).
-  Proof. exact (@c06_same_calls MS K R I start resume ret reg cfg ms0 progs). Qed.
+    progs t = tcalls t (g_fin g) ++ pend (g_th g t) ++ t_prog (g_th g t) /\
+    (thread_done (g_th g t) = true -> tcalls t (g_fin g) = progs t) /\
+    dpairs (g_done g) = processed (g_fin g).
+  Proof. exact (@c06_same_calls MS K R I start resume ret reg cfail xfail r_refused r_exit cfg ms0 progs). Qed.
 
   (* Re-entrancy: a call made from a callback by the thread that is inside touches no lock and not
      ident.current, starts processing at once, and the thread is not blocked. *)
@@ -81,13 +89,13 @@ Section C06.
     let g' := stp tid g in
     (forall l, g_own g' l = g_own g l) /\ g_ident g' = g_ident g /\
     top_act (g_th g' tid) = Some (mkAct c' (PRun (start c')) [] []) /\
-    blocked g' tid = false /\
+    blocked cfail g' tid = false /\
     g_log g' = g_log g ++ [EvSeg tid (a_call a) its].
-  Proof. exact (@c06_reentrant MS K R I start resume ret reg cfg WF ms0 progs). Qed.
+  Proof. exact (@c06_reentrant MS K R I start resume ret reg cfail xfail r_refused r_exit cfg WF ms0 progs). Qed.
 
   Theorem C06_reentrant_never_blocked : forall g t, reach g -> t <> 0 ->
-    t_nest (g_th g t) <> [] -> blocked g t = false.
-  Proof. exact (@c06_reentrant_never_blocked MS K R I start resume ret reg cfg WF ms0 progs). Qed.
+    t_nest (g_th g t) <> [] -> blocked cfail g t = false.
+  Proof. exact (@c06_reentrant_never_blocked MS K R I start resume ret reg cfail xfail r_refused r_exit cfg WF ms0 progs). Qed.
 
   (* Contexts.  (1) A top-level call reads its context list when it starts (the unlocked read of
      model_context_map next to the read of ident.current): machine contexts, then the contexts registered
@@ -98,7 +106,7 @@ Section C06.
     t_cur (g_th (stp tid g) tid) =
       Some (mkAct c (PAcq (ctxs_of reg cfg (g_ms g) c)) [] (ctxs_of reg cfg (g_ms g) c)) /\
     (cfg_hier cfg = false -> ctxs_of reg cfg (g_ms g) c = ctxs_spec reg cfg (g_ms g) c).
-  Proof. exact (@entry_reads_configuration MS K R I start resume ret reg cfg). Qed.
+  Proof. exact (@entry_reads_configuration MS K R I start resume ret reg cfail xfail r_refused r_exit cfg). Qed.
 
   (* (2) no later step changes the call or that list while the activation exists *)
   Theorem C06_contexts_fixed : forall (g : gstate) tid t a, t_cur (g_th g t) = Some a ->
@@ -106,7 +114,7 @@ Section C06.
     | Some a' => a_call a' = a_call a /\ a_ctxs a' = a_ctxs a
     | None => True
     end.
-  Proof. exact (@a_ctxs_stable MS K R I start resume ret reg cfg). Qed.
+  Proof. exact (@a_ctxs_stable MS K R I start resume ret reg cfail xfail r_refused r_exit cfg). Qed.
 
   (* (3) while the call is processed every context of that list is held by the processing thread, and
      they were entered in the order of the list *)
@@ -114,22 +122,22 @@ Section C06.
     t_cur (g_th g t) = Some a -> a_phase a = PRun k ->
     rev (a_held a) = a_ctxs a /\
     forall x, In x (a_ctxs a) -> holds g t x.
-  Proof. exact (@c06_contexts_held_code MS K R I start resume ret reg cfg WF ms0 progs). Qed.
+  Proof. exact (@c06_contexts_held_code MS K R I start resume ret reg cfail xfail r_refused r_exit cfg WF ms0 progs). Qed.
 
   (* at every moment the contexts entered so far are a prefix of the list (order) *)
   Theorem C06_contexts_order : forall g t a, reach g -> t <> 0 -> t_cur (g_th g t) = Some a ->
     exists suf, rev (a_held a) ++ suf = a_ctxs a.
-  Proof. exact (@c06_contexts_order MS K R I start resume ret reg cfg WF ms0 progs). Qed.
+  Proof. exact (@c06_contexts_order MS K R I start resume ret reg cfail xfail r_refused r_exit cfg WF ms0 progs). Qed.
 
   (* after the call (whatever its result r : R was - a value or an exception) nothing is held *)
   Theorem C06_contexts_released : forall g t, reach g -> t <> 0 -> t_cur (g_th g t) = None ->
     forall x, ~ holds g t x.
-  Proof. exact (@c06_contexts_released MS K R I start resume ret reg cfg WF ms0 progs). Qed.
+  Proof. exact (@c06_contexts_released MS K R I start resume ret reg cfail xfail r_refused r_exit cfg WF ms0 progs). Qed.
 
   (* No deadlock: unless every thread is finished, some thread can make a real step. *)
   Theorem C06_progress : forall g, reach g ->
-    (exists t, t <> 0 /\ thread_done (g_th g t) = false) -> exists t', enabled g t' = true.
-  Proof. exact (@c06_progress MS K R I start resume ret reg cfg WF ms0 progs). Qed.
+    (exists t, t <> 0 /\ thread_done (g_th g t) = false) -> exists t', enabled cfail g t' = true.
+  Proof. exact (@c06_progress MS K R I start resume ret reg cfail xfail r_refused r_exit cfg WF ms0 progs). Qed.
 End C06.
 Print Assumptions C06_invariant.
 Print Assumptions C06_mutex.
@@ -148,8 +156,9 @@ Print Assumptions C06_progress.
 (* The macro steps executed by the correspondence runner (Model/LockIO.v: one observable step followed by
    the steps that cannot be observed from outside) are ordinary schedules: every macro run is the run of
    some fine-grained schedule, hence covered by all theorems above. *)
-Theorem C06_macro_runs_are_schedules : forall tab cfg msched (g : cgstate),
-  exists sched, macro_run tab cfg msched g = run (c_start tab) (c_resume tab) c_ret c_reg cfg sched g.
+Theorem C06_macro_runs_are_schedules : forall tab fails cfg msched (g : cgstate),
+  exists sched, macro_run tab fails cfg msched g =
+                run (c_start tab) (c_resume tab) c_ret c_reg (fail_at fails 1) (fail_at fails 2) c_refused c_exit cfg sched g.
 Proof. exact macro_run_is_run. Qed.
 Print Assumptions C06_macro_runs_are_schedules.
 
@@ -159,6 +168,9 @@ Definition w_start (c : call) : nat := c_id c.
 Definition w_resume (k : nat) (ms : nat) : nat * list nat * status (K:=nat) (R:=nat) :=
   match k with 0 => (S ms, [k], SDone ms) | S k' => (S ms, [k], SMore k') end.
 Definition w_ret (k : nat) (r : nat) : nat := k.
+Definition nofail (c : call) (x : ctx) : bool := false.
+Definition w_rr (c : call) (x : ctx) : nat := 99.
+Definition w_rx (c : call) (x : ctx) (r : nat) : nat := 98.
 Definition w_reg (ms : nat) (m : nat) : option (list nat) :=
   match m with 0 => Some [3] | 1 => Some [4; 5] | 2 => Some [] | _ => None end.
 
@@ -167,10 +179,23 @@ Definition w_reg (ms : nat) (m : nat) : option (list nat) :=
 Example C06_example :
   let cfg := mkCfg [1; 2] false in
   let progs := fun t => match t with 1 => [mkCall (KEvent 0) 1] | 2 => [mkCall (KEvent 1) 0; mkCall KMethod 0] | _ => [] end in
-  let g := run w_start w_resume w_ret w_reg cfg (flat_map (fun _ => [1; 2]) (seq 0 30)) (init progs 0) in
+  let g := run w_start w_resume w_ret w_reg nofail nofail w_rr w_rx cfg (flat_map (fun _ => [1; 2]) (seq 0 30)) (init progs 0) in
   wf_cfg cfg = true /\ g_bad g = false /\ g_ms g = 4 /\
   g_acq g = [(1, mkCall (KEvent 0) 1); (2, mkCall (KEvent 1) 0); (2, mkCall KMethod 0)] /\
   map (fun d => d_res d) (g_done g) = [1; 2; 3] /\ thread_done (g_th g 1) = true /\ thread_done (g_th g 2) = true.
+Proof. vm_compute. repeat split; reflexivity. Qed.
+
+(* non-vacuity of the failure clause: the LAST context of thread 1's call (the model context, lock 3) refuses;
+   the machine contexts and ident entered before it are released, nothing of the call is processed (g_ms only
+   counts the 2 segments of thread 2's call), thread 2 gets through, nothing is held at the end *)
+Example C06_refusal_example :
+  let cfg := mkCfg [1; 2] false in
+  let cf := fun (c : call) (x : ctx) => Nat.eqb (c_id c) 7 && ctx_eqb x (CLock 3) in
+  let progs := fun t => match t with 1 => [mkCall (KEvent 0) 7] | 2 => [mkCall (KEvent 0) 1] | _ => [] end in
+  let g := run w_start w_resume w_ret w_reg cf nofail w_rr w_rx cfg (flat_map (fun _ => [1; 2]) (seq 0 30)) (init progs 0) in
+  g_bad g = false /\ g_ms g = 2 /\ g_fin g = [(1, mkCall (KEvent 0) 7, false); (2, mkCall (KEvent 0) 1, true)] /\
+  g_acq g = [(2, mkCall (KEvent 0) 1)] /\ g_ident g = 0 /\ map (g_own g) [1; 2; 3] = [0; 0; 0] /\
+  thread_done (g_th g 1) = true /\ thread_done (g_th g 2) = true.
 Proof. vm_compute. repeat split; reflexivity. Qed.
 
 (* KF-C06-1: on the hierarchical locked classes (event_cls = NestedEvent) the contexts of the event's
@@ -179,7 +204,7 @@ Proof. vm_compute. repeat split; reflexivity. Qed.
 Theorem C06_contexts_held_hier_refuted :
   exists (cfg : lcfg) (progs : nat -> list call) (sched : list nat) (a : act (K:=nat) (R:=nat)) (k : nat),
     wf_cfg cfg = true /\ cfg_hier cfg = true /\
-    let g := run w_start w_resume w_ret w_reg cfg sched (init progs 0) in
+    let g := run w_start w_resume w_ret w_reg nofail nofail w_rr w_rx cfg sched (init progs 0) in
     g_bad g = false /\ t_cur (g_th g 1) = Some a /\ a_phase a = PRun k /\
     In (CLock 3) (ctxs_spec w_reg cfg (g_ms g) (a_call a)) /\ ~ holds g 1 (CLock 3).
 Proof.
@@ -205,7 +230,7 @@ Definition w2_resume (k : nat) (ms : nat) : nat * list nat * status (K:=nat) (R:
 Theorem C06_contexts_held_nested_refuted :
   exists (cfg : lcfg) (progs : nat -> list call) (sched : list nat) (a : act (K:=nat) (R:=nat)) (k : nat),
     wf_cfg cfg = true /\ cfg_hier cfg = false /\
-    let g := run w_start w2_resume w_ret w_reg cfg sched (init progs 0) in
+    let g := run w_start w2_resume w_ret w_reg nofail nofail w_rr w_rx cfg sched (init progs 0) in
     g_bad g = false /\ top_act (g_th g 1) = Some a /\ a_phase a = PRun k /\ a_call a = mkCall (KEvent 1) 1 /\
     In (CLock 4) (ctxs_spec w_reg cfg (g_ms g) (a_call a)) /\ ~ holds g 1 (CLock 4).
 Proof.
@@ -225,7 +250,7 @@ Qed.
 Theorem C06_mutex_unregistered_refuted :
   exists (cfg : lcfg) (progs : nat -> list call) (sched : list nat),
     wf_cfg cfg = true /\ cfg_hier cfg = false /\
-    let g := run w_start w_resume w_ret w_reg cfg sched (init progs 0) in
+    let g := run w_start w_resume w_ret w_reg nofail nofail w_rr w_rx cfg sched (init progs 0) in
     g_bad g = true /\ in_segment g 1 /\ in_segment g 2.
 Proof.
   exists (mkCfg [0] false),
@@ -247,7 +272,7 @@ Definition w3_reg (ms : nat) (m : nat) : option (list nat) :=
 Theorem C06_contexts_stale_refuted :
   exists (cfg : lcfg) (progs : nat -> list call) (sched : list nat) (a : act (K:=nat) (R:=nat)) (k : nat),
     wf_cfg cfg = true /\ cfg_hier cfg = false /\
-    let g := run w_start w_resume w_ret w3_reg cfg sched (init progs 0) in
+    let g := run w_start w_resume w_ret w3_reg nofail nofail w_rr w_rx cfg sched (init progs 0) in
     g_bad g = false /\ t_cur (g_th g 1) = Some a /\ a_phase a = PRun k /\
     holds g 1 (CLock 3) /\
     In (CLock 5) (ctxs_spec w3_reg cfg (g_ms g) (a_call a)) /\ ~ holds g 1 (CLock 5).
@@ -261,6 +286,7 @@ Proof.
   - discriminate.
 Qed.
 Print Assumptions C06_example.
+Print Assumptions C06_refusal_example.
 Print Assumptions C06_contexts_stale_refuted.
 Print Assumptions C06_contexts_held_hier_refuted.
 Print Assumptions C06_contexts_held_nested_refuted.
